@@ -600,7 +600,21 @@ impl World {
         };
         // what does not reach an authenticated, known connection cannot be judged "invalid by
         // construction" on content alone — only the catalogue cases above are
-        Item { input: Input::Msg { peer, bytes: msg.serialize() }, label: format!("{}@{}", label, peer_name(peer)), must_reject, hostile: true }
+        let mut bytes = msg.serialize();
+        let mut label = label;
+        // one message in eight is cut short (C10 decides the decoders; here the point is what the
+        // handler does with a buffer that may or may not decode)
+        if rng.below(8) == 0 && bytes.len() > 2 {
+            let cut = match rng.below(3) {
+                0 => bytes.len() - 1,
+                1 => 1 + rng.below(bytes.len() as u64 - 1) as usize,
+                _ => bytes.len().saturating_sub(1 + rng.below(bytes.len().min(45) as u64) as usize).max(1),
+            };
+            bytes.truncate(cut);
+            label = format!("truncated:{}", label);
+            must_reject = false;
+        }
+        Item { input: Input::Msg { peer, bytes }, label: format!("{}@{}", label, peer_name(peer)), must_reject, hostile: true }
     }
 
     async fn hostile_fetch(&mut self, rng: &mut Rng, rep: &mut Report) -> Option<Item> {
